@@ -202,7 +202,7 @@ func (st *State) sumLoop(h, from *ssa.BasicBlock, li *loopInfo, cl *countedLoop,
 	body.sum = cloneSumMap(st.sum)
 	body.sum[h] = col
 	body.loopIndex = cloneValSet(st.loopIndex)
-	idxName := "%" + f.Name() + ":" + cl.phi.Name() + "@idx"
+	idxName := st.pfx + "%" + f.Name() + ":" + cl.phi.Name() + "@idx"
 	ip.SetBounds(idxName, cl.start-1, lin.PosInf)
 	for _, pe := range phis {
 		switch {
@@ -213,13 +213,13 @@ func (st *State) sumLoop(h, from *ssa.BasicBlock, li *loopInfo, cl *countedLoop,
 				body.loopIndex[cl.cmpVal] = true
 			}
 		case pe.entry.K == KInt:
-			base := "%" + f.Name() + ":" + pe.phi.Name() + "@sum"
+			base := st.pfx + "%" + f.Name() + ":" + pe.phi.Name() + "@sum"
 			lo, hi, _ := intBounds(pe.phi.Type(), ip.sizes())
 			ip.SetBounds(base, lo, hi)
 			col.base["phi:"+pe.phi.Name()] = base
 			body.vals[pe.phi] = IntVal(lin.Sym(base))
 		default:
-			v := ip.symbolic(pe.phi.Type(), "%"+f.Name()+":"+pe.phi.Name()+"@"+h.String(), body)
+			v := ip.symbolic(pe.phi.Type(), st.pfx+"%"+f.Name()+":"+pe.phi.Name()+"@"+h.String(), body)
 			if pe.entry.K == KErr && pe.entry.ErrNil == Yes && nilOnBackEdges(pe.phi, h) {
 				v = Val{K: KErr, ErrNil: Yes}
 			}
@@ -550,7 +550,7 @@ func (st *State) finishSum(h *ssa.BasicBlock, li *loopInfo, cl *countedLoop, col
 		case pe.entry.K == KInt:
 			out.vals[pe.phi] = IntVal(exitVal("phi:"+pe.phi.Name(), pe.entry.F))
 		default:
-			v := ip.symbolic(pe.phi.Type(), "%"+f.Name()+":"+pe.phi.Name()+"@"+h.String(), out)
+			v := ip.symbolic(pe.phi.Type(), st.pfx+"%"+f.Name()+":"+pe.phi.Name()+"@"+h.String(), out)
 			if pe.entry.K == KErr && pe.entry.ErrNil == Yes && nilOnBackEdges(pe.phi, h) {
 				v = Val{K: KErr, ErrNil: Yes}
 			}
